@@ -120,9 +120,7 @@ func vK01cDecode() {
 	if r, rn, ok := refDecodeUTF8One(s); ok {
 		vAssert(dn == rn && uint32(dr) == r, "DecodeWTF8Rune agrees with UTF-8 on well-formed input")
 	}
-	if n > 0 && dn == 0 {
-		vAssert(dr == 0xFFFD, "zero width only with RuneError")
-	}
+	vAssert(n == 0 || dn >= 1, "DecodeWTF8Rune makes progress on non-empty input (callers advance by the width)")
 	vReach("end")
 }
 
